@@ -85,11 +85,35 @@ fn judge_graph<G: GraphLike>(st: &mut Stats, g: &G, seed: &Value, backend: &'sta
     }
 }
 
+/// cosmetic data (drawing coordinates) in three layouts that are not the left-to-right circuit layout: the value of a
+/// diagram, and the order of its tensor indices (inputs then outputs, in list order), must not depend on it
+fn set_layout<G: GraphLike>(g: &mut G, layout: u64) {
+    let ins: Vec<V> = g.inputs().clone();
+    let vs: Vec<V> = g.vertices().collect();
+    for v in vs {
+        let (row, qubit) = match layout {
+            1 => (-(v as f64), (v % 2) as f64),
+            2 => (((v * 7) % 5) as f64 - 2.5, -(v as f64)),
+            _ => (if ins.contains(&v) { 10.0 } else if g.vertex_type(v) == VType::B { 0.0 } else { 5.0 - v as f64 }, 1.0),
+        };
+        g.set_row(v, row);
+        g.set_qubit(v, qubit);
+    }
+}
+
 fn on_spec(st: &mut Stats, spec: &DiagSpec) {
     st.inc("cases");
     let seed = json!({"diagram": spec.to_json()});
     judge_graph(st, &spec.build::<quizx::vec_graph::Graph>(), &seed, "vec");
     judge_graph(st, &spec.build::<quizx::hash_graph::Graph>(), &seed, "hash");
+    if !spec.inputs.is_empty() || !spec.outputs.is_empty() {
+        for layout in 1..=3u64 {
+            let seed = json!({"diagram": spec.to_json(), "layout": layout});
+            let mut g = spec.build::<quizx::vec_graph::Graph>();
+            set_layout(&mut g, layout);
+            judge_graph(st, &g, &seed, "vec");
+        }
+    }
     st.sample(2, || seed.clone());
 }
 
@@ -104,6 +128,15 @@ fn judge_circuit(st: &mut Stats, c: &Circuit) {
     // circuit-derived diagram through the graph evaluator
     let g: quizx::vec_graph::Graph = c.to_graph();
     judge_graph(st, &g, &seed, "vec");
+    // the adjoint diagram keeps its drawing coordinates (outputs now on the left) and a re-laid-out copy
+    {
+        let seed = json!({"circuit": circuit_json(c), "adjoint": true});
+        judge_graph(st, &g.to_adjoint(), &seed, "vec");
+        let seed = json!({"circuit": circuit_json(c), "layout": 2});
+        let mut g2 = g.clone();
+        set_layout(&mut g2, 2);
+        judge_graph(st, &g2, &seed, "vec");
+    }
     if !circuit_supported(c) {
         // documented as unsupported: must panic with that message and nothing else
         st.inc("evaluations");
@@ -323,7 +356,11 @@ pub fn replay(w: &Value) -> Option<Violation> {
         "graph" | "circuit" => {
             let seed = &w["seed"];
             if let Some(spec) = DiagSpec::from_json(&seed["diagram"]) {
-                if w["backend"] == "hash" {
+                if let Some(layout) = seed["layout"].as_u64() {
+                    let mut g = spec.build::<quizx::vec_graph::Graph>();
+                    set_layout(&mut g, layout);
+                    judge_graph(&mut st, &g, seed, "vec");
+                } else if w["backend"] == "hash" {
                     judge_graph(&mut st, &spec.build::<quizx::hash_graph::Graph>(), seed, "hash");
                 } else {
                     judge_graph(&mut st, &spec.build::<quizx::vec_graph::Graph>(), seed, "vec");
